@@ -587,6 +587,11 @@ func (g *Gen) discharge(fcs []*FnCtx, filter func(*Oblig) bool) {
 				if o.Cover && to > 3 {
 					to = 3 // a cover that needs longer falls back to its quantifier-free part
 				}
+				if !o.Cover && to > 15 {
+					// first attempt with a third of the budget; what times out is restarted below with other seeds
+					// and the full budget (instances are usually either quick or hopeless for a given seed)
+					to = to / 3
+				}
 				r := runPortfolio(o.Name, o.Query, to, g.seed)
 				to = g.timeoutS
 				o.Result = r
@@ -651,7 +656,7 @@ func (g *Gen) discharge(fcs []*FnCtx, filter func(*Oblig) bool) {
 			}
 		}
 	}
-	sem := make(chan struct{}, 4)
+	sem := make(chan struct{}, 2)
 	for _, o := range again {
 		o := o
 		wg.Add(1)
@@ -659,14 +664,29 @@ func (g *Gen) discharge(fcs []*FnCtx, filter func(*Oblig) bool) {
 		go func() {
 			defer wg.Done()
 			defer func() { <-sem }()
-			r := runPortfolio(o.Name+"/retry", o.Query, 3*g.timeoutS, g.seed+7)
-			if r.Verdict == "unsat" {
-				o.Result = r
-				o.Status = "discharged"
-				o.Retried = true
-			} else if r.Verdict == "sat" {
-				o.Result = r
-				o.Status = "failed"
+			// restarts with other random seeds in parallel (the usual remedy for instances that are easy most of the
+			// time), one of them with three times the budget
+			type att struct {
+				seed, to int
+			}
+			atts := []att{{g.seed + 7, 3 * g.timeoutS}, {g.seed + 101, g.timeoutS}, {g.seed + 1009, g.timeoutS}, {g.seed + 5003, 2 * g.timeoutS}}
+			res := make(chan *SolverResult, len(atts))
+			for k, a := range atts {
+				k, a := k, a
+				go func() { res <- runPortfolio(fmt.Sprintf("%s/retry%d", o.Name, k), o.Query, a.to, a.seed) }()
+			}
+			for range atts {
+				r := <-res
+				if r.Verdict == "unsat" {
+					o.Result = r
+					o.Status = "discharged"
+					o.Retried = true
+					break
+				} else if r.Verdict == "sat" {
+					o.Result = r
+					o.Status = "failed"
+					break
+				}
 			}
 		}()
 	}
